@@ -1,15 +1,66 @@
 package props
 
-import "verif/checker/internal/tmpl"
+import (
+	"strings"
+
+	"verif/checker/internal/skel"
+	"verif/checker/internal/tmpl"
+)
+
+const lemma = "generated names are capture-free and pairwise distinct in every scope (lemma L3/L4 of DESIGN §4; C12/C11 decide only necessary conditions of it)"
+
+func skeletonExplain(c *Ctx, what string) {
+	c.Run.Explainf("%s Method: the template string is extracted from /repo (role: the argument of text/template Parse), parsed with text/template/parse and expanded abstractly — an own walker over the parse tree, Execute is never called — for every combination of -stub/-skip-ensure/-with-resets, both destination modes and every method/mock shape class (0..2 parameters with and without a variadic tail, 0..2 results, 0..2 methods, 0..2 type parameters with/without explicit constraint, 1..2 mocks; thorough: 0..3). The template data methods it calls (ArgList, ArgCallList, ReturnArgTypeList, ReturnArgNameList, MethodArg, CallName, TypeString, ImportStatement, SyncPkgQualifier, Package.Path/Qualifier) are interpreted abstractly from their current source over symbolic strings (opaque tokens for names and type texts), so a change hidden in a helper changes the skeleton. Each skeleton is type-checked with go/types against an independently declared interface and analysed with go/cfg.", what)
+	c.Run.Assumef(lemma)
+	c.Run.Assumef("S-3 uniformity: range bodies use their index only for truthiness and method bodies do not refer to other methods (checked on the template on every run), so larger lists add no behaviour")
+	c.Run.Assumef("go/types, go/cfg and text/template/parse are trusted; text/template's truthiness and field/method lookup rules are re-implemented in the expander")
+}
 
 func init() {
+	register("C03", "other", func(c *Ctx) {
+		skeletonExplain(c, "C03 (faithful delegation): per generated interface method — exactly one call through a function field, through the method's own field, arguments exactly the parameters in declaration order, '...' iff the last parameter is variadic, parameters never assigned or address-taken, `return f(...)` for methods with results and a last plain statement otherwise, nothing after the call, no go/defer/recover/function literal, no loop, the call on every completing path except the nil branch of a test of the own field; no other generated function invokes a function field.")
+		c.Run.Floor("K-CALLBACK/once", 1)
+		c.Run.Floor("K-CALLBACK/args", 2)
+		c.RunSkeletons(SkelOpts{Rules: []string{"K-CALLBACK", "K-FLOW", "K-LOCK/defer", "K-NILFUNC/guard", "G-DATA/params", "G-DATA/methods"}})
+	})
+	register("C04", "other", func(c *Ctx) {
+		skeletonExplain(c, "C04 (every call recorded, in order, exact arguments): exactly one `x = append(x, rec)` per method on a record slice, on every path to the callback and to every normal exit; rec is defined once by a struct literal with one keyed field per parameter in order, named Exported(param) and set to that parameter, of the slice's element type; the only writers of record slices anywhere are append-one and `= nil` (so a returned header is never written below its length and a reset never reuses its array); the accessor returns exactly the header read under the lock; all mock fields work from the zero value.")
+		c.Run.Floor("K-RECORD/append-once", 1)
+		c.Run.Floor("K-RECORD/literal", 3)
+		c.Run.Floor("K-RECORD/accessor", 2)
+		c.RunSkeletons(SkelOpts{Rules: []string{"K-RECORD", "K-FLOW/acyclic"}})
+	})
+	register("C05", "other", func(c *Ctx) {
+		skeletonExplain(c, "C05 (race freedom of the record lists): Eraser-style lockset discipline on the skeletons — every read or write of a record slice happens with a lock of the receiver certainly held (must-lockset over go/cfg), writes under a write lock, one common lock protects all accesses of a slice across all functions of the mock, distinct methods use distinct slices and locks, lock fields are sync.RWMutex/Mutex values of import path \"sync\" (resolved by go/types, so a user package named sync cannot stand in), receivers are pointers, no reference to the storage escapes. The atomic-list behaviour (count, no tearing, per-goroutine order, prefix-monotone snapshots) follows from these facts plus C04's single append inside one write section and the Go memory model; that derivation is an argument, not machine-checked.")
+		c.Run.Floor("K-LOCK/access-locked", 3)
+		c.Run.Floor("K-LOCK/write-exclusive", 1)
+		c.RunSkeletons(SkelOpts{Rules: []string{"K-LOCK/access-locked", "K-LOCK/write-exclusive", "K-LOCK/common-lock", "K-LOCK/distinct-locks", "K-LOCK/lock-type", "K-LOCK/receiver", "K-LOCK/unbalanced", "K-RECORD/escape", "K-RECORD/distinct-storage", "K-RECORD/writers", "K-FLOW/go"}})
+	})
 	register("C06", "proof", func(c *Ctx) {
-		c.Run.Explainf("C06 (no internal lock held while user code runs) is decided on the generated-code schemas: the template is extracted from /repo, parsed with text/template/parse, and expanded abstractly (never executed) for every combination of the three flags, both destination modes and all method/mock shape classes; each skeleton is type-checked and a may/must lockset dataflow over go/cfg runs on every function with a mock receiver. Obligations per function: lockset empty at the call through the function field (K-LOCK/held-at-callback), empty at every exit incl. panics (held-at-exit), no acquire while any lock may be held (nested), releases only of held locks (unbalanced), no call other than append/len inside a critical section, no loop inside one, no defer at all.")
+		skeletonExplain(c, "C06 (no internal lock held while user code runs): a may/must lockset dataflow over go/cfg runs on every function with a mock receiver. Obligations per function: lockset empty at the call through the function field (K-LOCK/held-at-callback), empty at every exit incl. panics (held-at-exit), no acquire while any lock may be held (nested), releases only of held locks (unbalanced), no call other than append/len inside a critical section, no loop inside one, no defer at all, no goroutine/channel operation/function literal.")
 		c.Run.Trusted = []string{"go/parser, go/types, golang.org/x/tools/go/cfg", "text/template/parse (parser only)", "substitution lemma of DESIGN §4 (names are capture free and distinct: L3/L4)", "sync.RWMutex semantics", "S-3 uniformity of the template (checked syntactically on every run)"}
-		c.Run.Assumef("generated names are capture-free and pairwise distinct (lemma L3/L4, DESIGN §4)")
 		c.Run.Floor("K-LOCK/held-at-callback", 1)
 		c.Run.Floor("K-LOCK/held-at-exit", 3)
 		c.RunSkeletons(SkelOpts{Rules: []string{"K-LOCK/held-at-callback", "K-LOCK/held-at-exit", "K-LOCK/nested", "K-LOCK/unbalanced", "K-LOCK/call-in-critical-section", "K-LOCK/loop-in-critical-section", "K-LOCK/defer", "K-FLOW/go", "K-FLOW/funclit", "K-FLOW/chan"}})
 	})
-	_ = tmpl.Env{}
+	register("C07", "other", func(c *Ctx) {
+		skeletonExplain(c, "C07 (unset function: identifying panic by default, zero values with -stub): every method has exactly one nil test of its own function field and it guards the call; without -stub its nil branch does nothing but call the builtin panic with a constant string that contains <Mock>.<M>Func and <Interface>.<M>; with -stub the function contains no panic at all, the call is recorded on every path (K-RECORD/every-path) and the nil branch returns variables that are declared without initialiser, never assigned, and have exactly the result types in order (bare return for result-less methods).")
+		c.Run.Floor("K-NILFUNC/guard", 2)
+		c.Run.Floor("K-NILFUNC/panic", 3)
+		c.Run.Floor("K-NILFUNC/stub-branch", 2)
+		c.RunSkeletons(SkelOpts{Rules: []string{"K-NILFUNC", "K-RECORD/every-path", "K-RECORD/before-callback", "G-DATA/flags", "G-DATA/results", "G-SCOPE/shared"}})
+		flagFlow(c, "stub")
+	})
+	register("C08", "other", func(c *Ctx) {
+		skeletonExplain(c, "C08 (reset API only on request, clears exactly what it names): the method set of every mock is {M, MCalls} for each M, plus {ResetMCalls for each M, ResetCalls} iff with-resets (every other flag combination); ResetMCalls writes nil, unconditionally and under the write lock, to exactly the slice its method appends to and reads nothing; ResetCalls does so for the slices of all methods; clearing is `= nil`, never a re-slice. The flag's way from the command line to the template data is checked as an identity flow on the generator's source (G-FLAGS).")
+		c.Run.Floor("K-MSET/reset", 4)
+		c.Run.Floor("K-RESET/frame", 4)
+		c.RunSkeletons(SkelOpts{Rules: []string{"K-MSET", "K-RESET", "K-RECORD/writers", "K-LOCK/access-locked", "K-LOCK/write-exclusive", "G-DATA/flags"}, KeepOb: func(o skel.Ob, e tmpl.Env) bool {
+			if strings.HasPrefix(o.Rule, "K-RECORD/writers") || strings.HasPrefix(o.Rule, "K-LOCK/") {
+				return strings.HasPrefix(o.Key, "reset")
+			}
+			return true
+		}})
+		flagFlow(c, "with-resets")
+	})
 }
